@@ -652,3 +652,41 @@ CORPUS += [
     V("C01", "mdcpdp-pickup-test-or", R + "mdcpdp/env.py", "(current_node < pd_split_idx) & (current_node >= num_depot)", "(current_node < pd_split_idx) | (current_node >= num_depot)", "C01.n"),
     V("C01", "mdcpdp-back-flag-le", R + "mdcpdp/env.py", "back_flag = (current_node < num_depot) & (", "back_flag = (current_node <= num_depot) & (", "C01.n"),
 ]
+
+# ---- model-side sweep survivors turned into rules (guards, signs, formulas)
+_G = "not (~mask).gather(1, selected.unsqueeze(-1)).data.any()"
+CORPUS += [
+    V("C10", "greedy-guard-polarity", DECP, "        selected = logprobs.argmax(dim=-1)\n        if mask is not None:\n            assert (\n                " + _G, "        selected = logprobs.argmax(dim=-1)\n        if mask is not None:\n            assert (\n                not (mask).gather(1, selected.unsqueeze(-1)).data.any()", "C10.c"),
+    V("C10", "sampling-loop-polarity", DECP, "            while (~mask).gather(1, selected.unsqueeze(-1)).data.any():", "            while (mask).gather(1, selected.unsqueeze(-1)).data.any():", "C10.c"),
+    V("C10", "eq-greedy-guard-all-form", DECP, "        selected = logprobs.argmax(dim=-1)\n        if mask is not None:\n            assert (\n                " + _G, "        selected = logprobs.argmax(dim=-1)\n        if mask is not None:\n            assert (\n                mask.gather(1, selected.unsqueeze(-1)).all()", None),
+    V("C13", "beam-step-guard-polarity", DECP, "        mask = mask[batch_beam_idx]\n\n        assert (\n            " + _G, "        mask = mask[batch_beam_idx]\n\n        assert (\n            not (mask).gather(1, selected.unsqueeze(-1)).data.any()", "C13.c"),
+    V("C13", "best-beam-flat-index-minus", DECP, "torch.arange(batch_size, device=rewards.device) + idx * batch_size", "torch.arange(batch_size, device=rewards.device) - idx * batch_size", "C13.e"),
+    V("C11", "loglik-gather-rank-guard-inverted", DECP, "if actions is not None and logprobs.dim() == 3:", "if actions is not None and logprobs.dim() != 3:", "C11.b"),
+    V("C11", "loglik-sum-guard-inverted", DECP, "    if return_sum:\n        return logprobs.sum(1)", "    if not return_sum:\n        return logprobs.sum(1)", "C11.b"),
+    V("C11", "eq-loglik-ndim", DECP, "if actions is not None and logprobs.dim() == 3:", "if actions is not None and logprobs.ndim == 3:", None),
+    V("C16", "symnco-degenerate-guard-reversed", SYMF, "    if num_augment < 2:", "    if num_augment > 2:", "C16.b"),
+    V("C16", "symnco-degenerate-guard-nonstrict", SYMF, "    if num_starts < 2:", "    if num_starts <= 2:", "C16.b"),
+    V("C16", "eq-symnco-guard-le-1", SYMF, "    if num_starts < 2:", "    if num_starts <= 1:", None),
+    V("C16", "ppo-adv-normalisation-plus-mean", PPOF, "(adv - adv.mean()) / (adv.std() + 1e-8)", "(adv + adv.mean()) / (adv.std() + 1e-8)", "C16.b"),
+    V("C16", "ppo-adv-normalisation-eps-sign", PPOF, "(adv - adv.mean()) / (adv.std() + 1e-8)", "(adv - adv.mean()) / (adv.std() - 1e-8)", "C16.b"),
+    V("C16", "eq-ppo-adv-normalisation-other-eps", PPOF, "(adv - adv.mean()) / (adv.std() + 1e-8)", "(adv - adv.mean()) / (1e-6 + adv.std())", None),
+    V("C20", "scaler-eps-sign", UTF, "std.to(**tensor_to_kwargs) + torch.finfo(scores.dtype).eps", "std.to(**tensor_to_kwargs) - torch.finfo(scores.dtype).eps", "C20.b"),
+    V("C20", "scaler-mode-guard-inverted", UTF, 'if self.scale == "norm":', 'if self.scale != "norm":', "C20.b"),
+    V("C12", "batchify-applies-zero-factor", OPSF, "x = _batchify_single(x, s) if s > 0 else x", "x = _batchify_single(x, s) if s >= 0 else x", "C12.a"),
+    V("C12", "eq-batchify-guard-ge-1", OPSF, "x = _batchify_single(x, s) if s > 0 else x", "x = _batchify_single(x, s) if s >= 1 else x", None),
+    V("C12", "unbatchify-and-gather-fixed-axis", OPSF, "return gather_by_index(x, idx, dim=idx.dim())", "return gather_by_index(x, idx, dim=1)", "C12.c"),
+    V("C12", "select-best-max-over-batch", DECP, "_, max_idxs = unbatchify(rewards, self.num_starts).max(dim=-1)", "_, max_idxs = unbatchify(rewards, self.num_starts).max(dim=0)", "C12.c"),
+    V("C12", "pomo-gather-fixed-axis", "rl4co/models/zoo/pomo/model.py", "actions, max_idxs, dim=max_idxs.dim()", "actions, max_idxs, dim=1", "C12.c"),
+    V("C12", "eq-eval-aug-best-of-rewritten", EVF, "        rewards = unbatchify(rewards, num_augment)\n        actions = unbatchify(out[\"actions\"], num_augment)\n\n        # Get best reward and corresponding action\n        rewards, max_idxs = rewards.max(dim=1)\n        actions = gather_by_index(actions, max_idxs, dim=1)",
+      "        rewards = unbatchify(rewards, num_augment)\n        acts = unbatchify(out[\"actions\"], num_augment)\n        best, best_i = torch.max(rewards, dim=1)\n        actions = gather_by_index(acts, best_i)\n        rewards = best", None),
+    V("C12", "num-starts-pdp-mod", OPSF, "            num_starts - 1\n        ) // 2", "            num_starts - 1\n        ) % 2", "C12.d"),
+    V("C12", "num-starts-depot-plus", OPSF, "num_starts = num_starts - 1  # depot", "num_starts = num_starts + 1  # depot", "C12.d"),
+    V("C12", "op-resample-nonstrict", OPSF, ".float().sum(-1) < num_starts).any()", ".float().sum(-1) <= num_starts).any()", "C12.d"),
+    V("C12", "op-resample-reversed", OPSF, ".float().sum(-1) < num_starts).any()", ".float().sum(-1) > num_starts).any()", "C12.d"),
+    V("C12", "random-starts-plus-inf", OPSF, "ps[~action_mask] = -torch.inf", "ps[~action_mask] = torch.inf", "C12.d"),
+    V("C12", "random-starts-mask-polarity", OPSF, "ps[~action_mask] = -torch.inf", "ps[action_mask] = -torch.inf", "C12.d"),
+    V("C12", "eq-random-starts-replace-flipped-operands", OPSF, "    if n_valid_actions < n:", "    if n > n_valid_actions:", None),
+    V("C12", "depot-branch-no-plus-one", OPSF, "            % num_loc\n            + 1\n        )", "            % num_loc\n        )", "C12.d"),
+    V("C12", "pdp-starts-not-halved", "rl4co/envs/routing/pdp/env.py", 'num_possible_starts = (td["locs"].shape[-2] - 1) // 2', 'num_possible_starts = (td["locs"].shape[-2] - 1)', "C12.d"),
+    V("C12", "eq-pdp-starts-size-call", "rl4co/envs/routing/pdp/env.py", 'num_possible_starts = (td["locs"].shape[-2] - 1) // 2', 'num_possible_starts = (td["locs"].size(-2) - 1) // 2', None),
+]
